@@ -672,6 +672,71 @@ func prop(c Case, r *pbt.R) (err error) {
 	return nil
 }
 
+// ---------------------------------------------------------------------------
+// volume: state that accumulates over many stores on one cache
+
+type VolumeCase struct {
+	Keys int `json:"keys"`
+	Mix  int `json:"mix"` // 0: all entries live one hour, 1: every third never expires, 2: every third is stored with 1ms and has expired
+}
+
+func volumeProp(c VolumeCase, r *pbt.R) error {
+	n := c.Keys
+	if n < 1 || n > 20000 {
+		return nil
+	}
+	mix := ((c.Mix % 3) + 3) % 3
+	ch := cache.New[string, int](cache.NoExpiration, 0)
+	short := func(k int) bool { return mix == 2 && k%3 == 0 }
+	for k := 0; k < n; k++ {
+		d := time.Hour
+		switch {
+		case mix == 1 && k%3 == 0:
+			d = cache.NoExpiration
+		case short(k):
+			d = time.Millisecond
+		}
+		if err := ch.Set(fmt.Sprintf("key-%d", k), k+1, d); err != nil {
+			return fmt.Errorf("cache with %d keys (mix %d): Set(key-%d) failed: %v", n, mix, k, err)
+		}
+		if k%4 == 0 {
+			time.Sleep(100 * time.Nanosecond) // the stores happen at increasing (virtual) instants, so the deadlines differ
+		}
+	}
+	time.Sleep(2 * time.Millisecond) // virtual: the 1ms entries are past their deadline, everything else is live
+	lost, ghosts := 0, 0
+	for k := 0; k < n; k++ {
+		it, err := ch.Get(fmt.Sprintf("key-%d", k))
+		if short(k) {
+			if err == nil {
+				ghosts++
+			}
+			continue
+		}
+		if err != nil || it.Val() != k+1 {
+			lost++
+		}
+	}
+	if lost > 0 || ghosts > 0 {
+		return fmt.Errorf("cache with %d keys stored one after the other (mix %d), read back 2ms later: %d live entries are missing or wrong, %d expired entries are still served", n, mix, lost, ghosts)
+	}
+	if cnt := ch.Count(); cnt > n || (mix != 2 && cnt != n) {
+		return fmt.Errorf("cache with %d keys (mix %d): Count() = %d", n, mix, cnt)
+	}
+	if err := ch.DeleteExpired(); err != nil {
+		return fmt.Errorf("cache with %d keys (mix %d): DeleteExpired failed: %v", n, mix, err)
+	}
+	want := n
+	if mix == 2 {
+		want = n - (n+2)/3
+	}
+	if cnt := ch.Count(); cnt != want {
+		return fmt.Errorf("cache with %d keys (mix %d): Count() = %d after DeleteExpired, want %d (only the expired entries are removed)", n, mix, cnt, want)
+	}
+	r.NonTrivialIf(n >= 1000, ">= 1000 keys")
+	return nil
+}
+
 func TestProp(t *testing.T) {
 	pbt.Run(t, "C08",
 		&pbt.Check[Case]{
@@ -690,6 +755,19 @@ func TestProp(t *testing.T) {
 				{DefExp: 0, Cleanup: 1, Ops: []Op{{Kind: opSet, Key: 0, Dur: durHuge}, {Kind: opIsExpired, Key: 0}, {Kind: opDeleteExpired}, {Kind: opGet, Key: 0}, {Kind: opAdvance, Arg: advLong}, {Kind: opSet, Key: 0, Dur: durShort}}},
 				{DefExp: 2, Cleanup: 0, Ops: []Op{{Kind: opUpdate, Key: 1, Dur: durHuge}, {Kind: opAdvance, Arg: advTick}, {Kind: opDeleteExpired}, {Kind: opCount}, {Kind: opMapToCache, Key: 3, Dur: durHuge}}},
 			},
+		},
+		&pbt.Check[VolumeCase]{
+			Name: "volume",
+			Rule: "one cache, N keys stored one after the other (all for one hour / every third without expiry / every third with 1ms), read back 2ms later in virtual time: every live entry is served with its value, no expired one is, Count agrees, DeleteExpired removes exactly the expired ones. N in {1, 100, 1023, 1024, 1025, 3000} x 3 mixes (thorough also 10000). Non-trivial = N >= 1000.",
+			Fixed: []VolumeCase{{1, 0}, {100, 2}, {1023, 0}, {1024, 0}, {1025, 1}, {3000, 0}, {3000, 2}, {1024, 2}},
+			Gen: func(s pbt.Src, thorough bool) VolumeCase {
+				if thorough {
+					return VolumeCase{Keys: pbt.Pick(s, 513, 2049, 4097, 10000), Mix: s.Intn(3)}
+				}
+				return VolumeCase{Keys: pbt.Pick(s, 513, 2049), Mix: s.Intn(3)}
+			},
+			Prop: volumeProp, OutOfEnum: func(VolumeCase, bool) bool { return true },
+			RapidQuick: 2, RapidThorough: 6, Bubble: true,
 		},
 	)
 }
